@@ -217,6 +217,9 @@ def run_loop(I, s, f, sp, kind, iterable):
         bind_head()
         return sp.invariant(Env(f, I, extra))
 
+    for gname in sp.havoc:
+        if gname.startswith("ghost:") and gname not in f.locals:
+            f.locals[gname] = 0             # ghost counters start at 0
     # 1. invariant holds on entry
     E.ensure(label + ".inv.init", inv_now(), kind="inv.init", lineno=s.lineno)
 
@@ -249,6 +252,9 @@ def run_loop(I, s, f, sp, kind, iterable):
                 o.attrs[attr] = _havoc_value(cur, base + "." + attr, sp)
         else:
             raise Unsupported("loop mutates attribute container of non-object %s" % base)
+    for gname, rule in sp.havoc.items():
+        if gname.startswith("ghost:"):          # ghost locals: always re-chosen at the loop head
+            f.locals[gname] = rule(f.locals.get(gname, UNBOUND))
     if kind == "for":
         k = E.fresh_int("it")
         E.add(z3.And(k >= 0, k <= T(trips)))
